@@ -323,6 +323,10 @@ class PDFXRefStream(PDFBaseXRef):
                 assert self.entlen is not None
                 assert self.data is not None
                 offset = self.entlen * (index + i)
+                if self.entlen <= 0 or len(self.data) < offset + self.entlen:
+                    # /Index promises more entries than the stream holds:
+                    # there is nothing beyond the end of the data
+                    return
                 ent = self.data[offset : offset + self.entlen]
                 f1 = nunpack(ent[: self.fl1], 1)
                 if f1 == 1 or f1 == 2:
